@@ -92,6 +92,19 @@ def _leak_ro(thorough):
                     for o, ev in orders.items():
                         yield {'family': 'leak', 'fe': 'ro', 'ev': ev, 'probe': probe,
                                'tag': '%s:%s->%s:%s|%s' % (ra, ka, rb, kb, o)}
+    # an EMPTY set definition (forall() / minmax(obj, []) without constraints) after / before every other kind: the
+    # empty definition denotes all of R^n (the constraint under it cannot hold), never the set formulated before it
+    # (solved through HiGHS / Gurobi, which report infeasible programs cleanly; ECOS does not)
+    for ka in KINDS_LP + KINDS_SOC:
+        for ra in ('decoy', 'real', 'defsup'):
+            for rb in ('forall', 'minmax', 'maxmin'):
+                if ra == 'defsup' and rb != 'forall':
+                    continue
+                a = _ro_a(ra, ka, 'A', 1)
+                b = _ro_b(rb, 'empty')
+                for o, ev in (('AB', a + b), ('BA', b + a)):
+                    yield {'family': 'leak', 'fe': 'ro', 'ev': ev, 'probe': [], 'how': 'def' if ka in KINDS_LP else 'grb',
+                           'tag': '%s:%s->%s:empty|%s' % (ra, ka, rb, o)}
     # a noise random variable declared between the two definitions (changes the width of the shared model)
     for ka in ('bnd', 'n1', 'n2', 'p3', 'exp'):
         for kb in ('bnd', 'lin', 'n2', 'kl'):
